@@ -73,7 +73,8 @@ def run(c):
     out1 = os.path.join(c.scratch, "replay.ndjson"); out2 = os.path.join(c.scratch, "record.ndjson")
     c.run_driver(drv, ["replay", cp, out1])
     c.run_driver(drv, ["record", out2])
-    events = read_ndjson(out1) + read_ndjson(out2)
+    ev1 = read_ndjson(out1)
+    events = ev1 + read_ndjson(out2) + c.second_pass(drv, ["replay", cp, os.path.join(c.scratch, "replayT.ndjson")], os.path.join(c.scratch, "replayT.ndjson"), ev1)
     calls = 0
     for ln in events:
         op = ln[7:ln.index('"', 7)]
